@@ -266,7 +266,7 @@ package forwarder
 //@ func (g *Gtp5g) CreateURR(lSeid uint64, req *ie.IE) (err error)
 //@   requires g != nil && g.link != nil && g.ps != nil && req != nil
 //@   modifies *
-//@   serves C03 C07
+//@   serves C03 C07 C15
 //@   loop range(ies):
 //@     modifies rptTrig.*
 //@   at call append#1:
@@ -318,7 +318,7 @@ package forwarder
 //@   requires g != nil && g.link != nil && g.ps != nil && req != nil
 //@   ensures [unreg] ok(req.URRID()) ==> !(RuleKey(lSeid, 4, uint64(val(req.URRID()))) in PERIOREQ)
 //@   modifies *
-//@   serves C03 C10 C07
+//@   serves C03 C10 C07 C15
 //@   at call RemoveURROID:
 //@     assert [oid]   len(arg2) == 2 && arg2[0] == lSeid && arg2[1] == uint64(val(req.URRID()))
 //@   at call append:
@@ -447,7 +447,7 @@ package forwarder
 //@ func (g *Gtp5g) newPdi(i *ie.IE) (attrs nl.AttrList, err error)
 //@   requires g != nil && i != nil
 //@   modifies FDSRC, FDDST
-//@   serves C02 C07
+//@   serves C02 C07 C16
 //@   loop range(ies):
 //@     modifies nothing
 //@     invariant [sdf] forall j int :: 0 <= j && j < len(sdfIEs) ==> sdfIEs[j] != nil
